@@ -18,6 +18,10 @@ pub fn check(tier: Tier) -> Check {
         ));
     }
     parts.push(Part::new("C10/quota", json!({"depth": tier.pick(4, 5), "r": 1}), 2, tier.pick(20, 300)));
+    // Session Present = 1 and a CONNACK / CONNECT full of other settings: R must be honoured all the same
+    for r in [1u64, 2, 3] {
+        parts.push(Part::new("C10/quota", json!({"depth": tier.pick(5, 7), "r": r, "flavour": 1}), 0, tier.pick(25, 400)));
+    }
     parts.push(Part::new("C10/fill", json!({"r": 65535}), 0, 120));
     parts.push(Part::new("C10/fill", json!({"r": 0}), 0, 120));
     parts.push(Part::new("C10/fill", json!({"r": 300}), 0, 120));
@@ -25,7 +29,7 @@ pub fn check(tier: Tier) -> Check {
         also_rel: false,
         property: "C10",
         level: "model_checking",
-        rule: "R in {1,2,3}: all histories of QoS 0/1/2 publishes, acknowledgements (success and failing, any outstanding publish) and pings up to the stated depth; R in {65535, absent, 300}: deterministic fill - refuse - drain - refill runs through the real client; accept/refuse decisions and the wire must equal the model's; non-trivial = a publish was refused for quota or a slot was freed by a failing acknowledgement".into(),
+        rule: "R in {1,2,3} (announced in a bare CONNACK, and with Session Present = 1 among many other CONNECT/CONNACK settings): all histories of QoS 0/1/2 publishes, acknowledgements (success and failing, any outstanding publish) and pings up to the stated depth; R in {65535, absent, 300}: deterministic fill - refuse - drain - refill runs through the real client; accept/refuse decisions and the wire must equal the model's; non-trivial = a publish was refused for quota or a slot was freed by a failing acknowledgement".into(),
         assumptions: vec!["conformant broker".into()],
         parts,
     }
@@ -96,7 +100,7 @@ pub fn scenario(name: &str, params: &Value) -> Scenario {
     Box::new(move |chz, ex| {
         let mut sys = Sys::new("C10", &name, chz);
         sys.params = params.clone();
-        sys.bring_up(receive_max(r));
+        sys.bring_up_fl(receive_max(r), params["flavour"].as_u64().unwrap_or(0));
         let specs = vec![
             OpSpec::Publish(PublishSpec::simple(0, "t", b"q0")),
             OpSpec::Publish(PublishSpec::simple(1, "t", b"q1")),
